@@ -30,4 +30,5 @@ pub const TABLE: &[(&str, &str)] = &[
     ("\u{3d3}", "\u{3a5}\u{301}"),
     ("pa\u{df} w\u{f6}rd \u{ff11}", "pa\u{df} wo\u{308}rd 1"),
 ];
-pub fn nfkd(s: &str) -> &'static str { TABLE.iter().find(|(i, _)| *i == s).unwrap_or_else(|| panic!("passphrase {s:?} is not in the reference NFKD table")).1 }
+pub fn nfkd(s: &str) -> &'static str { let o = nfkd_raw(s); crate::trace::rec("nfkd", 100, || (crate::trace::q(s), crate::trace::q(o))); o }
+fn nfkd_raw(s: &str) -> &'static str { TABLE.iter().find(|(i, _)| *i == s).unwrap_or_else(|| panic!("passphrase {s:?} is not in the reference NFKD table")).1 }
